@@ -137,8 +137,11 @@ def r3(ctx: Ctx) -> None:
             for bp in l.paths:
                 inner = [e for e in calls(bp) if calls_target(e, UTS)]
                 its = [e for e in calls(bp, into_loops=False) if calls_target(e, IT)]
-                ok = not inner and len(its) == 1 and kw(its[0], "session", 0) == el and not bp.conds
-                ctx.check(ok, f, l.node, "each session runs its steps once and the run loop itself does not touch the clock", "_iterate_market_updates(session) once, unconditionally", f"{len(its)} call(s), {len(inner)} direct clock step(s), {len(bp.conds)} condition(s)")
+                if bp.exit[0] == "raise":
+                    continue
+                # unconditional = on every path of the loop body (decisions about other things may exist)
+                ok = not inner and len(its) == 1 and kw(its[0], "session", 0) == el
+                ctx.check(ok, f, l.node, "each session runs its steps once and the run loop itself does not touch the clock", "_iterate_market_updates(session) once on every path of the session loop", f"{len(its)} call(s), {len(inner)} direct clock step(s) on [{bp.describe()[:80]}]")
     g = ctx.func(IT)
     for p in normal_paths(ctx.paths(IT)):
         direct = [e for e in p.events if e.kind == "call" and calls_target(e, UTS)]
